@@ -818,7 +818,15 @@ func (sys *System) CreateLocation(ctx *Context, location string) (bool, error) {
 		} else {
 			Log(INFO, ctx, "System.CreateLocation", "location", location, "exists", exists)
 			if !exists {
-				err = markLocationCreated(ctx, loc)
+				// The marker is a property of the location, so
+				// writing it is a write like any other: not for
+				// a location that is disabled or read-only, and
+				// not without the write key (if any).
+				if !loc.Enabled(ctx) {
+					err = fmt.Errorf("Location is disabled.")
+				} else if err = loc.CheckWrite(ctx); err == nil {
+					err = markLocationCreated(ctx, loc)
+				}
 				if err != nil {
 					Log(ERROR, ctx, "System.CreateLocation", "error", err, "location", location, "when", "markLocationCreated")
 				}
